@@ -3,7 +3,7 @@ CONSTANTS
   KeepHist = TRUE
   Forms = {"fut", "await", "sticky", "on"}
   Ns = {1, 2}
-  OutSets = {"v", "x", "vv", "vx"}
+  OutSets = {"v", "vx"}
   Execs = {"here", "stop"}
 INVARIANTS PrintPaths
 CHECK_DEADLOCK FALSE
